@@ -229,6 +229,9 @@ func (b *BandDense) Reset() {
 // DiagView returns the diagonal as a matrix backed by the original data.
 func (b *BandDense) DiagView() Diagonal {
 	n := min(b.mat.Rows, b.mat.Cols)
+	if n == 0 {
+		return &DiagDense{}
+	}
 	return &DiagDense{
 		mat: blas64.Vector{
 			N:    n,
